@@ -1,0 +1,29 @@
+//go:build verif
+
+package mongo
+
+import (
+	"github.com/bmeg/grip/gdbi"
+	"github.com/bmeg/grip/gripql"
+	"go.mongodb.org/mongo-driver/bson"
+	"go.mongodb.org/mongo-driver/mongo"
+)
+
+// VerifCompiledQuery exposes the aggregation pipeline a compiled traversal
+// would send to MongoDB (verification hook, build tag `verif`).
+func VerifCompiledQuery(pipe gdbi.Pipeline) (collection string, stages mongo.Pipeline, ok bool) {
+	procs := pipe.Processors()
+	if len(procs) == 0 {
+		return "", nil, false
+	}
+	if proc, isMongo := procs[0].(*Processor); isMongo {
+		return proc.startCollection, proc.query, true
+	}
+	return "", nil, false
+}
+
+// VerifConvertHasExpression exposes the $match document emitted for a
+// has-expression (verification hook, build tag `verif`).
+func VerifConvertHasExpression(stmt *gripql.HasExpression) bson.M {
+	return convertHasExpression(stmt, false)
+}
